@@ -1,6 +1,7 @@
 package main
 
 import (
+	"go/token"
 	"fmt"
 	"sort"
 	"strings"
@@ -16,8 +17,8 @@ func init() {
 		Run: runC15,
 		Explanation: "Decides ONE structural clause of 'encoding with any accepted decode parameters, then decoding, returns the original bytes': for every filter type of pkg/filter that has both an Encode and a DecodeLength method, the set of decode-parameter keys (constant indices into the filter's parms map) read in code reachable from DecodeLength inside pkg/filter is contained in the set read in code reachable from Encode. A parameter that only the decoder interprets (Predictor, Colors, BitsPerComponent, Columns, EarlyChange) transforms the data on one side only, so Decode(Encode(x)) cannot be x for the parameter sets in which it matters. One table entry: LZWDecode reads Predictor only to reject values > 1 (such parameter sets are not accepted). " +
 			"The pinned tree violated this for FlateDecode — Encode ignored the predictor parameters, a TODO said so — repaired in /repo (2218e670). " +
-			"NOT decided: that the encoder applies the inverse transformation correctly (value-level), the codecs themselves, StreamDict pipelines.",
-		Rules:       []string{"C15.R1 siblings: decode parameters read by a filter's decoder are read by its encoder"},
+			"(R2) in StreamDict.Encode and decodeLength the parameter map handed to filter.NewFilter for a pipeline stage is made in that iteration (no value carried round the loop). NOT decided: that the encoder applies the inverse transformation correctly (value-level), the codecs themselves, StreamDict pipelines.",
+		Rules:       []string{"C15.R1 siblings: decode parameters read by a filter's decoder are read by its encoder", "C15.R2 flow: every pipeline stage is built with parameters made from its own /DecodeParms in the same iteration"},
 		Assumptions: []string{"decode parameters are read through constant keys of the parms map"},
 		Level:       "other",
 		Technique:   "sibling cross-check of Encode / DecodeLength over the call graph restricted to pkg/filter",
@@ -71,6 +72,8 @@ func parmKeysReachable(cg *CG, root *ssa.Function) map[string]string {
 func runC15(c *Ctx) {
 	p, r := c.P, c.R
 	r.MinInst["C15.R1"] = 6
+	r.MinInst["C15.R2"] = 2
+	checkPerStageParameters(c)
 	cg := c.CG()
 	enc := map[string]*ssa.Function{}
 	dec := map[string]*ssa.Function{}
@@ -122,5 +125,86 @@ func runC15(c *Ctx) {
 				r.Bad("C15.R1", FuncID(enc[t]), construct, p.Pos(enc[t].Pos()), "the decoder interprets the data with decode parameter "+k+" (read in "+dk[k]+") but nothing reachable from the encoder reads it: the transformation is applied on one side only, so a stream with this parameter that is decoded, changed and encoded again does not decode to what was encoded")
 			}
 		}
+	}
+}
+
+// ---------------- C15.R2 (round 3 seeds): each pipeline stage gets its own parameters ----------------
+
+// checkPerStageParameters: StreamDict.Encode and StreamDict.decodeLength build one filter per pipeline stage with
+// filter.NewFilter(name, parms, …). The parms handed in must be made from that stage's own /DecodeParms in the same
+// iteration (parmsForFilter(f.DecodeParms)); a value carried over from a previous iteration (a φ at the loop head)
+// gives a stage without parameters the parameters of its neighbour — on one side only, because the other side builds
+// a fresh map per stage.
+func checkPerStageParameters(c *Ctx) {
+	p, r := c.P, c.R
+	n := 0
+	for _, fn := range p.Funcs {
+		if fn.Pkg == nil || fn.Pkg.Pkg.Path() != modPath+"/pkg/pdfcpu/types" {
+			continue
+		}
+		fn := fn
+		loops := naturalLoops(fn)
+		k := 0
+		eachInstr(fn, func(b *ssa.BasicBlock, _ int, i ssa.Instruction) {
+			call, ok := i.(*ssa.Call)
+			if !ok {
+				return
+			}
+			if _, ref := callRef(call); ref != "pkg/filter.NewFilter" || len(call.Call.Args) < 2 {
+				return
+			}
+			var loop *natLoop
+			for _, l := range loops {
+				if l.blocks[b] {
+					loop = l
+				}
+			}
+			if loop == nil {
+				return
+			}
+			k++
+			n++
+			construct := fmt.Sprintf("NewFilter#%d parms", k)
+			carried := ""
+			seen := map[ssa.Value]bool{}
+			var walk func(v ssa.Value, d int)
+			walk = func(v ssa.Value, d int) {
+				if v == nil || d > 8 || seen[v] || carried != "" {
+					return
+				}
+				seen[v] = true
+				switch x := v.(type) {
+				case *ssa.Phi:
+					if x.Block() == loop.header {
+						carried = "φ at the loop head (" + x.Comment + ")"
+						return
+					}
+					for _, e := range x.Edges {
+						walk(e, d+1)
+					}
+				case *ssa.UnOp:
+					if al, ok := x.X.(*ssa.Alloc); ok && x.Op == token.MUL {
+						for _, rf := range *al.Referrers() {
+							if st, ok := rf.(*ssa.Store); ok && st.Addr == ssa.Value(al) {
+								if !loop.blocks[st.Block()] {
+									carried = "a variable assigned outside the loop (" + al.Comment + ")"
+									return
+								}
+								walk(st.Val, d+1)
+							}
+						}
+					}
+				}
+			}
+			walk(call.Call.Args[1], 0)
+			if carried != "" {
+				r.Bad("C15.R2", FuncID(fn), construct, p.Pos(call.Pos()), "the decode parameters handed to this pipeline stage's filter can be carried over from another stage ("+carried+"): a stage without /DecodeParms then runs with its neighbour's parameters on this side only, and the stream no longer decodes to what was encoded")
+			} else {
+				r.OK("C15.R2", FuncID(fn), construct, p.Pos(call.Pos()), "the parameters are made in the same iteration, from this stage's own /DecodeParms", true)
+			}
+		})
+	}
+	if n == 0 {
+		r.Bad("C15.R2", "pkg/pdfcpu/types", "anchor", "", "UNRESOLVED-ANCHOR: no filter.NewFilter call inside a pipeline loop")
 	}
 }
